@@ -18,6 +18,8 @@ EXTENDS Integers, Sequences, FiniteSets, TLC
 
 CONSTANTS R,            \* runs 1..R exist at the start: 1..R-1 completed (compacted), R open with a status
           N,            \* the query asks for the N most recent runs (latest-status = 1)
+          Find,         \* TRUE: the query is the lookup of run R by its request id (FindByRequestID): same listing
+                        \* order, every file is read until one holds a status of that run
           Relist, MaxRelist
 
 Runs == 1..(R + 1)
@@ -33,7 +35,9 @@ HasStatus(d, r) == \E k \in Kinds : d[<<r, k>>].exists /\ d[<<r, k>>].st # 0
 RECURSIVE Top(_, _, _)
 Top(d, r, n) == IF r = 0 \/ n = 0 THEN <<>>
                 ELSE IF HasStatus(d, r) THEN <<r>> \o Top(d, r - 1, n - 1) ELSE Top(d, r - 1, n)
-Abstract(d) == Top(d, R + 1, N)
+AbstractOf(d, n, f) == IF f THEN (IF HasStatus(d, R) THEN <<R>> ELSE <<>>) ELSE Top(d, R + 1, n)
+Abstract(d) == AbstractOf(d, N, Find)
+Takes(st, f) == st # 0 /\ (f => st = R)
 
 \* ---- listing order: newest run first, compacted copy before the original
 RECURSIVE Listing(_, _)
@@ -69,7 +73,7 @@ Visit == /\ qpc = "iter" /\ qfiles # <<>> /\ Len(qacc) < N
             IF ~disk[f].exists /\ Relist /\ relists < MaxRelist
               THEN /\ qfiles' = Listing(disk, R + 1) /\ qacc' = <<>> /\ relists' = relists + 1
               ELSE /\ qfiles' = Tail(qfiles) /\ UNCHANGED relists
-                   /\ qacc' = IF disk[f].exists /\ disk[f].st # 0 /\ ~InAcc(disk[f].st) THEN Append(qacc, disk[f].st) ELSE qacc
+                   /\ qacc' = IF disk[f].exists /\ Takes(disk[f].st, Find) /\ ~InAcc(disk[f].st) THEN Append(qacc, disk[f].st) ELSE qacc
          /\ UNCHANGED <<disk, rpc, qpc, valid, answer>>
 
 Next == CCreate \/ CWrite \/ CUnlink \/ Open2 \/ Write2 \/ List \/ Visit \/ Return
@@ -79,4 +83,5 @@ Spec == Init /\ [][Next]_vars
 C06_QueryLinearizable == qpc = "done" => answer \in valid
 \* in particular the run that is being closed is never missing from it
 C06_ClosingRunIsShown == qpc = "done" => \E i \in DOMAIN answer : answer[i] >= R
+\* (for a lookup the two say the same: the run is found)
 =============================================================================
